@@ -61,7 +61,7 @@ class C04(Prop):
     rule = ("exhaustive: all sets of <= 3 orders over 3 alternatives; random profiles m<=6 against brute force "
             "(n<=6); planted single-crossing walks and one-swap perturbations up to m=12, n=16 with shuffled storage, "
             "n<m and n>=m in equal shares; non-trivial = >= 3 orders")
-    budget = {"quick": 300, "thorough": 3000}
+    budget = {"quick": 300, "thorough": 10000}
     anchors = [("preflibtools.properties.subdomains.ordinal.singlecrossing", n) for n in
                ("is_single_crossing", "_is_ordered_profile_single_crossing", "is_single_crossing_conflict_sets")] + \
               [("preflibtools.properties.distances", "kendall_tau_distance")]
